@@ -15,6 +15,7 @@ TYPE_NAMES = ['int32', 'sint32', 'sfixed32', 'int64', 'sint64', 'sfixed64', 'uin
               'fixed64', 'float', 'double', 'bool', 'enum', 'string', 'bytes', 'message']
 L_REQ, L_OPT, L_REP, L_NONE = range(4)
 F_PACKED, F_ONEOF = 1, 4
+F_DEPRECATED = 2
 IS32 = {T_INT32, T_SINT32, T_SFIXED32, T_UINT32, T_FIXED32, T_FLOAT, T_ENUM, T_BOOL}
 IS64 = {T_INT64, T_SINT64, T_SFIXED64, T_UINT64, T_FIXED64, T_DOUBLE}
 PACKABLE = IS32 | IS64
@@ -110,6 +111,9 @@ def rand_scalar(rng, t):
     if t == T_ENUM:
         return rng.choice(ENUM_VALUES) & 0xffffffff
     if t == T_BOOL:
+        # protobuf_c_boolean is an int: any non-zero value is 'true' for the application, and goes on the wire as 1
+        if rng.random() < 0.15:
+            return rng.choice([2, 4, 255, 256, 0x10000, 0x80000000, 0xffffffff])
         return rng.choice([0, 1, 1, 0, 1])
     if t == T_FLOAT:
         return rng.choice(F32) if rng.random() < 0.6 else rng.getrandbits(32)
@@ -186,6 +190,8 @@ TRICKY_BIN = TRICKY_STR + [b'\x001', b'\x00\x00\x00', b'a\x000', b'\x00', b'\x00
 
 
 def rand_default(rng, t):
+    if t == T_BOOL:
+        return ('V', rng.choice([0, 1, 1]))          # the .proto can only say true / false
     if t == T_FLOAT:
         v = rand_scalar(rng, t)
         return ('V', 0x7fc00000 if (v & 0x7f800000) == 0x7f800000 and (v & 0x7fffff) else v)   # .proto text cannot carry a NaN payload
@@ -208,7 +214,7 @@ def rand_default(rng, t):
 DEFAULT_EQ_P = 0.25      # probability that a present field with a declared default holds exactly that default
 
 
-def rand_schema(rng, nmsgs=None, max_fields=8, allow_generic=True, syntax=None, big=False, types=None, dflt_p=0.35):
+def rand_schema(rng, nmsgs=None, max_fields=8, allow_generic=True, syntax=None, big=False, types=None, dflt_p=0.35, deprecated_p=0.12):
     nmsgs = nmsgs or rng.choice([1, 1, 2, 2, 3, 4])
     msgs = []
     syntax = syntax or rng.choice([2, 2, 3])
@@ -275,6 +281,10 @@ def rand_schema(rng, nmsgs=None, max_fields=8, allow_generic=True, syntax=None, 
                 init = rng.choice([1, 5, 0xffffffff, 0x80000000])   # first declared value of some enum
             fields.append(Field('f%d' % ids[j] if rng.random() < 0.7 else rng.choice(['a', 'b', 'ab', 'abc', 'B', 'zz', '_x']) + str(ids[j]),
                                 ids[j], label, t, flags, g, sub, dflt, init))
+        for f_ in fields:
+            # [deprecated = true] sets one more bit in the flags word next to PACKED / ONEOF: it must change nothing
+            if deprecated_p and rng.random() < deprecated_p:
+                f_.flags |= F_DEPRECATED
         msgs.append(Msg('M%d' % mi, fields, initmode, ngroups, syn))
     return Schema(msgs, syntax)
 
